@@ -257,11 +257,38 @@ def run_case(contract_id, case, props, tier="quick", seed=0, diff=True):
                 report["obligations"].append({"id": oid0(cl.name, prop), "prop": prop, "kind": cl.kind, "path": 0, "bounded": (cl.bounded if cl.bounded is not None else (contract.bounded if contract.bounded is not None else "native grid")), "status": "discharged" if r["answer"] == "unsat" else ("unknown" if (r["answer"] != "sat" or getattr(cl, "undecided_if_false", False)) else "refuted"), "clause": cl.name, "params": {}, "schedule": {}, "note": cl.note, "raised": None, "regions": {}, "backend": r["backend"]})
         report["diff_points"] = 1
         return report
+    executed = set()
+    mon = getattr(sys, "monitoring", None)
+    tool = None
+    if mon is not None:
+        try:
+            tool = 3
+            mon.use_tool_id(tool, "psvc")
+            pkgdir = os.path.join(loader.REPO, "processscheduler") + os.sep
+
+            def _start(code, offset):
+                if code.co_filename.startswith(pkgdir):
+                    executed.add(os.path.basename(code.co_filename)[:-3] + "." + code.co_qualname)
+                return mon.DISABLE
+
+            mon.register_callback(tool, mon.events.PY_START, _start)
+            mon.set_events(tool, mon.events.PY_START)
+        except Exception:  # noqa
+            tool = None
     try:
         results = eng.explore(fn)
     except sym.Unsupported as e:
         report["unsupported"].append(f"exploration: {e}")
         return report
+    finally:
+        if tool is not None:
+            try:
+                mon.set_events(tool, 0)
+                mon.register_callback(tool, mon.events.PY_START, None)
+                mon.free_tool_id(tool)
+            except Exception:  # noqa
+                pass
+        report["executed"] = sorted(x for x in executed if "<" not in x)
     report["paths"] = len(results)
     report["assumptions"] = sorted(eng.assumptions)
     cid = case_id(case)
